@@ -230,29 +230,47 @@ func c05ShapesRule(c *Ctx, a *absVariant, ruleID string) {
 		r.Fatal("variant %s: cloneState not found", vn)
 		return
 	}
+	// on the normalised paths: the returned dict R receives, for every key of p.cur.state, the value's Clone() when the
+	// value implements Cloner and the value itself otherwise
 	okRange, okCloner, okPlain := false, false, false
-	ast.Inspect(cs.Body, func(n ast.Node) bool {
-		rs, ok := n.(*ast.RangeStmt)
-		if !ok || exprStr(nil, rs.X) != "p.cur.state" {
-			return true
+	var whyC []string
+	for _, p := range c.vnorm(a.V).normPaths(cs) {
+		ret := lastReturn(p)
+		lo, hi := loopSpan(p, "range p.cur.state")
+		if lo < 0 || ret == "" {
+			whyC = append(whyC, "a path does not iterate over p.cur.state")
+			continue
 		}
 		okRange = true
-		ast.Inspect(rs.Body, func(m ast.Node) bool {
-			if as, ok := m.(*ast.AssignStmt); ok && len(as.Lhs) == 1 {
-				if ix, ok := as.Lhs[0].(*ast.IndexExpr); ok && exprStr(nil, ix.Index) == exprStr(nil, rs.Key) {
-					rhs := exprStr(nil, as.Rhs[0])
-					if strings.HasSuffix(rhs, ".Clone()") {
-						okCloner = true
-					} else if rhs == exprStr(nil, rs.Value) {
-						okPlain = true
-					}
-				}
+		stored := ""
+		for i := lo + 1; i < hi && i < len(p); i++ {
+			if p[i].Kind == "set" && strings.HasPrefix(p[i].Text, ret+"[#1]=") {
+				stored = strings.TrimPrefix(p[i].Text, ret+"[#1]=")
 			}
-			return true
-		})
-		return false
-	})
-	r.Check(okRange && okCloner && okPlain, ruleID, "T.cloneState:deep-copy", vn, a.V.Where(cs.Pos()), "every key copied, Cloner values through Clone()", fmt.Sprintf("range=%t cloner=%t plain=%t", okRange, okCloner, okPlain))
+			if p[i].Kind == "branch" {
+				whyC = append(whyC, "the copy loop can stop early")
+			}
+		}
+		elem := "p.cur.state[#1]"
+		in := p[lo+1 : minInt(hi, len(p))]
+		switch {
+		case in.holds("ok(" + elem + ".(Cloner))"):
+			if stored == elem+".(Cloner).Clone()" {
+				okCloner = true
+			} else {
+				whyC = append(whyC, "a Cloner value is copied as "+stored)
+			}
+		case in.holds("!ok(" + elem + ".(Cloner))"):
+			if stored == elem {
+				okPlain = true
+			} else {
+				whyC = append(whyC, "a plain value is copied as "+stored)
+			}
+		default:
+			whyC = append(whyC, "a value is copied ("+stored+") without the Cloner test; facts ["+strings.Join(in.facts(), " ")+"]")
+		}
+	}
+	r.Check(okRange && okCloner && okPlain && len(whyC) == 0, ruleID, "T.cloneState:deep-copy", vn, a.V.Where(cs.Pos()), "every key copied, Cloner values through Clone()", fmt.Sprintf("range=%t cloner=%t plain=%t %s", okRange, okCloner, okPlain, strings.Join(uniq(whyC), "; ")))
 }
 
 // c05Global: ownership of globalStore in every variant.
